@@ -20,6 +20,18 @@ pub struct LifeCfg {
     pub pre_recv: u8,
 }
 
+/// list-changing operations are heavy as injected operations: one per site, small prefix
+pub const LR: LifeCfg = LifeCfg {
+    cap: 2,
+    n: 2,
+    depth: 1,
+    budget: 2,
+    kinds: sched::MEM_KINDS | (1 << payload::K_PAYLOAD),
+    per_site: 1,
+    pre_send: 1,
+    pre_recv: 1,
+};
+
 pub const LQ: LifeCfg = LifeCfg {
     cap: 2,
     n: 2,
@@ -788,19 +800,19 @@ life!(c07_bc_view_o1, hk_c07_bc_view_o1, Runner<Disc<BcB, 1, true>, 1>, disconne
 life!(c07_mp_view_o1, hk_c07_mp_view_o1, Runner<Disc<MpB, 1, true>, 1>, disconnect::<MpB, 1, true, 1>(&LQ));
 // C10
 life!(c10_bc_sole_o1, hk_c10_bc_sole_o1, Runner<Add<BcB, false, 2, 2>, 1>, add_stream::<BcB, false, 1, 2, 2>(&LQ));
-life!(c10_bc_sole_o0, hk_c10_bc_sole_o0, Runner<Add<BcB, false, 1, 2>, 0>, add_stream::<BcB, false, 0, 1, 2>(&LQ));
+life!(c10_bc_sole_o0, hk_c10_bc_sole_o0, Runner<Add<BcB, false, 1, 2>, 0>, add_stream::<BcB, false, 0, 1, 2>(&LifeCfg { pre_recv: 1, ..LQ }));
 life!(c03_bc_addstream_o0_n1, hk_c03_bc_addstream_o0_n1, Runner<Add<BcB, false, 1, 2>, 0>, add_stream::<BcB, false, 0, 1, 2>(&LifeCfg { cap: 1, n: 1, pre_send: 1, pre_recv: 1, ..LQ }));
 life!(c10_bc_sib_o1, hk_c10_bc_sib_o1, Runner<Add<BcB, true, 2, 1>, 1>, add_stream::<BcB, true, 1, 2, 1>(&LifeCfg { budget: 3, per_site: 3, ..LQ }));
 // C11
 life!(c11_bc_drop_last_o1, hk_c11_bc_drop_last_o1, Runner<Rem<BcB, false>, 1>, remove_stream::<BcB, false, true, 1>(&LQ));
-life!(c11_bc_drop_last_o0, hk_c11_bc_drop_last_o0, Runner<Rem<BcB, false>, 0>, remove_stream::<BcB, false, true, 0>(&LQ));
+life!(c11_bc_drop_last_o0, hk_c11_bc_drop_last_o0, Runner<Rem<BcB, false>, 0>, remove_stream::<BcB, false, true, 0>(&LifeCfg { per_site: 1, ..LQ }));
 life!(c11_bc_unsub_last_o1, hk_c11_bc_unsub_last_o1, Runner<Rem<BcB, true>, 1>, remove_stream::<BcB, true, true, 1>(&LQ));
 life!(c11_bc_unsub_nonlast_o1, hk_c11_bc_unsub_nonlast_o1, Runner<Rem<BcB, true>, 1>, remove_stream::<BcB, true, false, 1>(&LQ));
-life!(c11_bc_droprace_o1, hk_c11_bc_droprace_o1, Runner<Rem2<BcB, 1>, 1>, remove_race::<BcB, 1, 1>(&LifeCfg { pre_recv: 1, ..LQ }));
-life!(c11_bc_addrace_o1, hk_c11_bc_addrace_o1, Runner<Rem2<BcB, 2>, 1>, remove_race::<BcB, 2, 1>(&LifeCfg { pre_recv: 1, ..LQ }));
-life!(c11_bc_addrace_o2, hk_c11_bc_addrace_o2, Runner<Rem2<BcB, 2>, 2>, remove_race::<BcB, 2, 2>(&LifeCfg { pre_recv: 1, ..LQ }));
-life!(c11_bc_bothhandles_o1, hk_c11_bc_bothhandles_o1, Runner<Rem2<BcB, 4>, 1>, remove_race::<BcB, 4, 1>(&LifeCfg { pre_recv: 1, ..LQ }));
-life!(c10_bc_addadd_o1, hk_c10_bc_addadd_o1, Runner<Rem2<BcB, 3>, 1>, remove_race::<BcB, 3, 1>(&LifeCfg { pre_recv: 1, ..LQ }));
+life!(c11_bc_droprace_o1, hk_c11_bc_droprace_o1, Runner<Rem2<BcB, 1>, 1>, remove_race::<BcB, 1, 1>(&LR));
+life!(c11_bc_addrace_o1, hk_c11_bc_addrace_o1, Runner<Rem2<BcB, 2>, 1>, remove_race::<BcB, 2, 1>(&LR));
+life!(c11_bc_addrace_o2, hk_c11_bc_addrace_o2, Runner<Rem2<BcB, 2>, 2>, remove_race::<BcB, 2, 2>(&LR));
+life!(c11_bc_bothhandles_o1, hk_c11_bc_bothhandles_o1, Runner<Rem2<BcB, 4>, 1>, remove_race::<BcB, 4, 1>(&LR));
+life!(c10_bc_addadd_o1, hk_c10_bc_addadd_o1, Runner<Rem2<BcB, 3>, 1>, remove_race::<BcB, 3, 1>(&LR));
 // C12
 life!(c12_mp_senders_o0, hk_c12_mp_senders_o0, Runner<Churn<MpB, 1>, 0>, churn::<MpB, 1, 0>(&LifeCfg { pre_send: 1, pre_recv: 1, ..LQ }));
 life!(c12_bc_senders_o0, hk_c12_bc_senders_o0, Runner<Churn<BcB, 1>, 0>, churn::<BcB, 1, 0>(&LifeCfg { pre_send: 1, pre_recv: 1, ..LQ }));
